@@ -50,6 +50,12 @@ class Harness(cm.BaseA):
             for asplit in (True, False):
                 out.append({"set": s, "labware": c01.SETS[s][0](), "auto_split": asplit})
         out.append({"set": "W4", "labware": c01.SETS["W4"][0](), "auto_split": True})
+        # warnings turned into errors while operations run (python -W error, pytest filterwarnings = error)
+        out.append({"set": "W3", "labware": c01.SETS["W3"][0](), "auto_split": True, "werror": True, "maxdepth": 1})
+        # a second labware object that carries the name of the first (replicate plates with one worktable label)
+        from ..world import plate
+
+        out.append({"set": "W1", "labware": c01.SETS["W1"][0]() + [dict(plate("P2", 2, 3, 10, 200, 100), label="P")], "auto_split": True, "same_name": True, "maxdepth": 1})
         return out
 
     def _sub(self, config, cls):
@@ -59,8 +65,11 @@ class Harness(cm.BaseA):
         return {"E": self._sub(config, "EvoWorklist"), "F": self._sub(config, "FluentWorklist"), "B": self._sub(config, "BaseWorklist"), "failed": 0}
 
     def core_events(self, W, config):
-        if W["failed"] >= 2:
+        if W["failed"] >= 2 or W.get("n", 0) >= config.get("maxdepth", 99):
             return []
+        if config.get("same_name"):
+            T = c01.T
+            return [T("P", ["A01"], "P2", ["A01"], [30]), T("P2", ["A01", "B01"], "P", ["A01", "B01"], [7.5, 70]), T("P", ["A02"], "Q", ["A01"], [120]), T("P2", ["B03"], "P2", ["A03"], [30])]
         if config["set"] == "W4":
             return c01.SETS["W4"][1]()
         extra = c03.failing_W1()[:6] if config["set"] == "W1" else c03.failing_W3()[:6]
@@ -69,6 +78,9 @@ class Harness(cm.BaseA):
     def full_events(self, W, config):
         if config["set"] == "W4":
             return c01.SETS["W4"][2]("quick") + misc()
+        if config.get("same_name"):
+            T = c01.T
+            return self.core_events({"failed": 0}, config) + [T("P", ["A01", "B01", "A02"], "P2", ["A01", "A01", "B02"], [70, 0, 120]), T("P2", ["A01"], "P", ["B02"], [0]), c01.R("T", 0, "P2", ["A01", "B01"], 30)]
         f = c03.failing_W1() if config["set"] == "W1" else c03.failing_W3()
         life = [["lifetime", ["A02", "B02", "B03"]], ["lifetime", ["B01", "A03"]]] if config["set"] == "W1" and not W.get("n") else []
         return c01.SETS[config["set"]][2]("quick") + f + misc() + trough_rows() + life
@@ -110,8 +122,13 @@ class Harness(cm.BaseA):
         W["n"] = W.get("n", 0) + 1
         geos = cm.geos(config)
         pre = self.canon(W, config)
-        oe, xe = exec_event(W["E"], ev)
-        of, xf = exec_event(W["F"], ev)
+        import warnings
+
+        with warnings.catch_warnings():
+            if config.get("werror"):
+                warnings.simplefilter("error")
+            oe, xe = exec_event(W["E"], ev)
+            of, xf = exec_event(W["F"], ev)
         re_, rf = list(W["E"]["wl"]["w"]), list(W["F"]["wl"]["w"])
         del W["E"]["wl"]["w"][:]
         del W["F"]["wl"]["w"][:]
